@@ -1,6 +1,8 @@
 //! C10 — split and splitn partition the text around the find_iter matches.
 //! Oracle = the crate's own find_iter on the same input (that is what the statement defines).
 use crate::common::*;
+use crate::diff;
+use crate::refm;
 use crate::spaces;
 use crate::sweep::{sweep, Case, SweepCfg};
 use serde_json::json;
@@ -19,7 +21,40 @@ pub fn run(ctx: &Ctx) -> Outcome {
     let acc = sweep(&cfg, &patterns, |c: &Case<'_>, acc| {
         let re = c.re;
         let mut nontrivial = false;
+        // second, independent statement of "the matches": the iteration model driven by the
+        // reference matcher (a change that moves find_iter and split together is invisible to
+        // the comparison of the two)
+        let rfm = if diff::default_exclude(c.node).is_none() && !c.node.has_f1() && !c.node.has_keepout_in_lookbehind() { refm::compile(c.node) } else { None };
+        let fj_listed = ctx.known.listed("C15", "FJ");
         for t in &texts {
+            if let Some((r, ng)) = &rfm {
+                let bound = t.chars().count() + 4;
+                if let Some(ms) = refm::iterate(r, *ng, t, refm::BUDGET, bound) {
+                    let mut want: Vec<Result<&str, String>> = vec![];
+                    let mut last = 0;
+                    for m in &ms {
+                        let (a, b) = m[0].unwrap();
+                        want.push(Ok(&t[last..a]));
+                        last = b;
+                    }
+                    want.push(Ok(&t[last..]));
+                    let _ = acc.take_hooks();
+                    let got = guard_plain(|| collect(re.split(t), bound + 3));
+                    let h = acc.take_hooks();
+                    match got {
+                        Got::Val(g) if g == want => acc.count("split-compared-with-reference-matches"),
+                        Got::Val(g) if g.iter().any(|x| x.is_err()) => {}
+                        Got::Val(g) => {
+                            if h.aux_mismatch > 0 && fj_listed {
+                                acc.count("reference-partition:attributed-to-FJ");
+                            } else {
+                                acc.violate(Violation::new("C10", "reference-partition", c.pattern, t, 0, "split", format!("{:?} (gaps between the matches of the reference iteration)", want), format!("{:?}", g)));
+                            }
+                        }
+                        _ => {}
+                    }
+                }
+            }
             acc.evals += 1;
             let bound = t.chars().count() + 4;
             let r = guard_plain(|| -> Result<bool, (String, String, String)> {
@@ -110,7 +145,7 @@ pub fn run(ctx: &Ctx) -> Outcome {
     });
     let mut out = Outcome::new(acc);
     out.distinct_nontrivial = out.acc.distinct;
-    out.rule = format!("patterns: [{}] and [{}] (F1-class patterns included: no reference semantics is needed); x all {} texts over {{a,b,c,é,\\n,-}} up to length {}; split = gaps between consecutive find_iter matches, #pieces = #matches + 1, interleaving rebuilds the text byte for byte; splitn(t, n) for n in 0..5; every prefix of next() calls on a fresh iterator. Non-trivial: distinct patterns with an empty match, a multi-byte match or >= 3 pieces on some text.", sp.describe, un.describe, texts.len(), ctx.tier.pick(3, 4));
+    out.rule = format!("patterns: [{}] and [{}] (F1-class patterns included: no reference semantics is needed); x all {} texts over {{a,b,c,é,\\n,-}} up to length {}; split = gaps between consecutive find_iter matches, #pieces = #matches + 1, interleaving rebuilds the text byte for byte; splitn(t, n) for n in 0..5; every prefix of next() calls on a fresh iterator; for the patterns with reference semantics split must also equal the gaps between the matches of the reference iteration model. Non-trivial: distinct patterns with an empty match, a multi-byte match or >= 3 pieces on some text.", sp.describe, un.describe, texts.len(), ctx.tier.pick(3, 4));
     out.assumptions = vec!["find_iter itself is judged by C08; sequences with overlapping matches (finding FK) have no partition and are skipped".into()];
     let (vm, wr) = (out.acc.get("nontrivial:vm"), out.acc.get("nontrivial:wrapped"));
     out.extra = json!({"nontrivial_patterns": {"vm": vm, "wrapped": wr}});
